@@ -527,7 +527,66 @@ def rule_i(ctx: Ctx) -> None:
             ctx.fail(m, st, ld.key, st, f"`{norm(st)}`: bare class names are written by dump() only for classes of sqlglot.expressions, but are looked up elsewhere")
 
 
-RULES = [rule_a, rule_b, rule_c, rule_d, rule_e, rule_f, rule_g, rule_h, rule_i]
+_SLOT_ALIASES = {"type": "type", "_type": "type", "comments": "comments", "_comments": "comments", "meta": "meta", "_meta": "meta", "args": "args"}
+
+
+def _guarded_slot_stores(fn: ast.AST) -> list[tuple[ast.Assign, list[ast.AST], set[str]]]:
+    """(store, guards, attributes of `node` the stored value reads) for every `payload[...] = <something read from node.<slot>>` in dump()."""
+    parent: dict[int, ast.AST] = {}
+    for x in ast.walk(fn):
+        for c in ast.iter_child_nodes(x):
+            parent[id(c)] = x
+    out = []
+    local = {st.targets[0].id: st.value.attr for st in ast.walk(fn) if isinstance(st, ast.Assign) and len(st.targets) == 1 and isinstance(st.targets[0], ast.Name)
+             and isinstance(st.value, ast.Attribute) and isinstance(st.value.value, ast.Name) and st.value.value.id == "node"}
+    for st in ast.walk(fn):
+        if not (isinstance(st, ast.Assign) and len(st.targets) == 1 and isinstance(st.targets[0], ast.Subscript) and norm(st.targets[0].value) == "payload"):
+            continue
+        read = {_SLOT_ALIASES.get(a.attr, a.attr) for a in ast.walk(st.value) if isinstance(a, ast.Attribute) and isinstance(a.value, ast.Name) and a.value.id == "node"}
+        read |= {_SLOT_ALIASES.get(local[a.id], local[a.id]) for a in ast.walk(st.value) if isinstance(a, ast.Name) and a.id in local}
+        read -= {"__class__", "__module__", "value"}
+        if not read:
+            continue
+        guards, cur = [], st
+        while id(cur) in parent:
+            up = parent[id(cur)]
+            if isinstance(up, ast.If) and cur in up.body:
+                guards.append(up.test)
+            cur = up
+        out.append((st, guards, read))
+    return out
+
+
+def rule_j(ctx: Ctx) -> None:
+    ctx.rule("C12.j", "a slot is written for every kind of node: whether dump() stores a per-node slot (type annotation, comments, meta) depends only on that slot's own value "
+                      "(`if node.type and node.type is not node`, `is not None`) and on the node being an expression — never on another attribute or the class of the node "
+                      "(`node.is_cast`, isinstance): the slot would silently be lost for that class of nodes on every dump / load, JSON and pickle round trip")
+    probe = ast.parse("def dump(e):\n while s:\n  if hasattr(node, 'parent'):\n   if node.type and not node.is_cast:\n    payload[T] = dump(node.type)\n   if node.comments:\n    payload[C] = node.comments\n")
+    pc = [(st, g, r) for st, g, r in _guarded_slot_stores(probe)]
+    ctx.require(len(pc) == 2, "internal: C12.j matcher no longer recognises its positive control")
+    d = ctx.repo.func(SERDE, "dump")
+    stores = _guarded_slot_stores(d.node)
+    ctx.count("slot_stores", len(stores))
+    ctx.min_instances("slot_stores", len(stores), 3)
+    for st, guards, read in stores:
+        inst = f"{d.key}|{norm(st.targets[0])}"
+        bad = None
+        for g in guards:
+            if isinstance(g, ast.Call) and call_name(g) == "hasattr":
+                continue  # expression / leaf discrimination of the walk
+            for x in ast.walk(g):
+                if isinstance(x, ast.Attribute) and isinstance(x.value, ast.Name) and x.value.id == "node" and _SLOT_ALIASES.get(x.attr, x.attr) not in read:
+                    bad = bad or f"node.{x.attr}"
+                if isinstance(x, ast.Call) and call_name(x) in ("isinstance", "type", "issubclass") and any(isinstance(n, ast.Name) and n.id == "node" for n in ast.walk(x)):
+                    bad = bad or norm(x, 50)
+        if bad:
+            ctx.fail(d.module, st, d.key, st.targets[0], f"`{norm(st, 60)}` is skipped depending on `{bad}`, which is not the value being stored: nodes for which the test fails lose their "
+                                                         f"{'/'.join(sorted(read))} on dump(), so load(dump(tree)) (and pickle, which goes through dump) is not equal in that slot to tree")
+        else:
+            ctx.ok(inst, {"slot": sorted(read), "guards": [norm(g, 60) for g in guards]})
+
+
+RULES = [rule_a, rule_b, rule_c, rule_d, rule_e, rule_f, rule_g, rule_h, rule_i, rule_j]
 THOROUGH_RULES = [rule_c_args]
 EXPLANATION = (
     "Writer/reader agreement of the serialisation format decided from the source: set equality between payload keys "
